@@ -11,7 +11,10 @@ Tie:  G  the three numba kernels (Gen/Kernels.lean), hillshade's numpy code read
 Oracles (written from the property statement and the cited documentation, independent of model and code):
       formula (Horn / five-point Laplacian / GeoExamples shading in float64), NaN border for every size,
       locality (change one cell -> only its 3x3 neighbourhood may change), offset invariance, flat windows,
-      ranges, quarter turn, summarize_terrain, dask == numpy.
+      ranges, quarter turn, summarize_terrain, dask == numpy, and "the raster's cell size" for rasters as they
+      occur in a workflow: DERIVED from a raster that was analysed before (strided overview, window, coordinates
+      rescaled to other units -- xarray operations that carry attrs along); the caller never set a `res`
+      attribute, so the cell size of the derived raster is the spacing of its own coordinates.
 """
 import json
 import math
@@ -426,6 +429,67 @@ def check_summarize(c):
     return bad
 
 
+def gen_derived(rng, fn):
+    """a raster whose cell size comes from its coordinates (no `res` attribute), a first call on it, and a second
+    raster derived from the same object the way callers derive rasters"""
+    c = gen_case(rng, fn, dict(mode=rng.choice(["coords", "coords", "coords_desc", "coords_named"]),
+                               shape=(rng.randrange(6, 11), rng.randrange(6, 11)),
+                               dtype=rng.choice(["float32", "float64", "int16", "int32"]),
+                               kind=rng.choice(["small", "dyadic", "ramp", "wide"])))
+    op = rng.choice(["stride", "stride", "rescale", "rescale", "window"])
+    if op == "stride":
+        c["derive"] = dict(op="stride", sy=rng.choice([1, 2, 2, 3]), sx=rng.choice([2, 2, 1, 3]))
+    elif op == "rescale":
+        c["derive"] = dict(op="rescale", k=rng.choice([0.001, 1000.0, 0.5, 4.0]))
+    else:
+        c["derive"] = dict(op="window", y0=1, x0=rng.choice([0, 1, 2]))
+    c["first"] = rng.choice(["slope", "curvature", "slope", "curvature", "aspect", "hillshade", "summarize", "none"])
+    return c
+
+
+def check_derived(c):
+    """fn on a raster derived from an already analysed one: documented formula with the derived raster's OWN cell size"""
+    fn = c["fn"]
+    data = data_of(c)
+    base = build(c, data)
+    if dict(base.attrs):
+        return []          # (never: the coords modes set no attribute) a `res` set by the caller would be the cell size
+    if c["first"] == "summarize":
+        from xrspatial.analytics import summarize_terrain
+        try:
+            summarize_terrain(base)
+        except Exception:  # noqa: BLE001 -- reported by the summarize stream
+            pass
+    elif c["first"] != "none":
+        call(c["first"], base, c)
+    d = c["derive"]
+    ydim, xdim = base.dims
+    rx, ry = c["rx"], c["ry"]
+    if d["op"] == "stride":
+        der = base[::d["sy"], ::d["sx"]]
+        rx, ry = rx * d["sx"], ry * d["sy"]
+    elif d["op"] == "window":
+        der = base[d["y0"]:, d["x0"]:]
+    else:
+        der = base.assign_coords({ydim: base[ydim] * d["k"], xdim: base[xdim] * d["k"]})
+        rx, ry = rx * d["k"], ry * d["k"]
+    h, w = der.shape
+    if h < 2 or w < 2:
+        return []
+    z = np.asarray(der.data).astype("f4").astype(np.float64)
+    st, out = call(fn, der, c)
+    if st != "ok":
+        return [(f"{fn}:raises", f"{fn} raised {st}: {out[:100]} on a raster derived by {d}")]
+    ref = reference(fn, z, rx, ry, c["az"], c["alt"])
+    bad = same(fn, out, ref)
+    if bad is not None and not np.isinf(z).any():
+        return [(f"{fn}:derived-cellsize",
+                 f"{fn} of a {h}x{w} raster derived ({d}) from a raster on which {c['first']} was called before: cell {bad} is "
+                 f"{out[bad]}, the documented formula with the derived raster's own cell size x={rx} y={ry} (its coordinate "
+                 f"spacing; no `res` attribute was ever set by the caller) gives {ref[bad]}; attrs now: {dict(der.attrs)}")]
+    return []
+
+
 def check_dask(c, rng_chunks):
     fn = c["fn"]
     data = data_of(c)
@@ -455,7 +519,10 @@ def run(r, n_override=None):
     r.rule = ("per function: shapes 1x1..7x7 (20% with a side < 3), 8 dtypes, values small ints with ties / dyadics / "
               "ramps / flat / 0..250, NaN cells for floats, cell size by res attr (tuple, list, ndarray, scalar, int) "
               "or coordinates (ascending, descending, renamed dims) with x != y in 65%, 10 azimuths x 9 altitudes; "
-              "each case also runs one-cell change, offset, quarter turn; non-trivial = distinct case with an interior")
+              "each case also runs one-cell change, offset, quarter turn; derived stream: a 6..10-cell raster with coordinates "
+              "only, one of slope/curvature/aspect/hillshade/summarize_terrain called on it, then a strided overview / window / "
+              "unit-rescaled copy derived from the same object is analysed with its own coordinate spacing as cell size; "
+              "non-trivial = distinct case with an interior")
     r.trusted += ["np.gradient interior stencil (contract of Gen.hillshade_cpu; checked by the hillshade correspondence stream)"]
     r.assumptions += ["values over exact reals / an ordered field: float rounding is covered by correspondence only",
                       "±inf elevations are not represented in NV (covered by the wild oracle stream)"]
@@ -521,6 +588,13 @@ def run(r, n_override=None):
         r.case(c, nontrivial=True, tags=["fn:summarize_terrain"])
         for key, msg in check_summarize(c):
             r.fail(key, msg, dict(c, stream="summarize"))
+    # rasters derived from an analysed raster: the cell size is the derived raster's own
+    for k in range(max(16, n // 4)):
+        fn = r.rng.choice(["slope", "curvature", "slope", "curvature", "aspect", "hillshade"])
+        c = gen_derived(r.rng, fn)
+        r.case(c, nontrivial=True, tags=[f"fn:{fn}", "stream:derived", f"derive:{c['derive']['op']}", f"first:{c['first']}"])
+        for key, msg in check_derived(c):
+            r.fail(key, msg, dict(c, stream="derived"))
     # dask == numpy
     for fn in FUNCS:
         for k in range(max(4, n // 12)):
@@ -542,6 +616,8 @@ def _check_any(c):
         return check_dask(c, tuple(c["chunks"]))
     if s == "resolution":
         return check_resolution(c, None)
+    if s == "derived":
+        return check_derived(c)
     return check_case(c, None)[0]
 
 
